@@ -74,7 +74,7 @@ Excess15(ev, N, ES, x) == ExcessFrom(ev, N, ES, x, 1)
 \* the only explicit not-implemented stubs a driver can reach by choice of input: P32E2 sin/cos/tan
 \* beyond their documented range (sleef.rs: `todo!()` for |x| >= 393216)
 StubOk(ev, N, ES, x) ==
-  /\ ev.o = "panic" /\ ev.msg = "not yet implemented"
+  /\ ev.o = "panic" /\ Has(ev, "stub") /\ ev.stub
   /\ ev.t = "p32" /\ ev.op \in {"sin", "cos", "tan", "sin_cos"}
   /\ ~IsNaR(N, x[1]) /\ ~TrigDomain(Val(N, ES, x[1]))
 \* for the diagnosis of a panic: was the argument inside the function's documented domain?
